@@ -109,6 +109,8 @@ def correspond(res):
     chk = ("fun c => match c with (o, tag, er, ex) => Z.eqb (out_tag o) tag && corr_rows (out_levels o) er && "
            "corr_results tol (out_levels o) ex end")
     ty = "outcome state * Z * (list Z * list Z * list (list row)) * (Q * Q * list (list Q))"
+    if not cases:
+        res.broke("correspondence adaptive", "the group has no case: nothing would be compared")
     bad, nshards = parallel_coq_bad(PROP, "adaptive", HEADER, ty, chk, cases, shard=24 if res.tier == "quick" else 60, timeout=900, jobs=12)
     res.case_lemmas += nshards
     if bad:
@@ -156,6 +158,8 @@ def _engine_reuse(res, rng):
            "corr_results tol (out_levels o) ex end) (run_seq pm_offs true 0 [] (map tab_pricing (fst c))) (snd c)")
     ty = ("list (list (list (Q * Q)) * list Q * list (list Z) * list bool * (Q * Q) * (nat * nat * nat * nat)) * "
           "list (Z * (list Z * list Z * list (list row)) * (Q * Q * list (list Q)))")
+    if not cases:
+        res.broke("correspondence reuse", "the group has no case: nothing would be compared")
     bad, nshards = parallel_coq_bad(PROP, "reuse", HEADER, ty, chk, cases, shard=10 if res.tier == "quick" else 40, timeout=900, jobs=12)
     res.case_lemmas += nshards
     if bad:
@@ -191,6 +195,8 @@ def _fixed_variant(res, rng):
         cases.append(f"(fixed_run {args}, Some ({D.coq_expected_rows(obs)}, {D.coq_expected_results(obs)}))")
     chk = ("fun c => match c with (Some vs, Some (er, ex)) => corr_rows vs er && corr_results tol vs ex | (None, None) => true | _ => false end")
     ty = "option (list lev) * option ((list Z * list Z * list (list row)) * (Q * Q * list (list Q)))"
+    if not cases:
+        res.broke("correspondence fixed", "the group has no case: nothing would be compared")
     bad, nshards = parallel_coq_bad(PROP, "fixed", HEADER, ty, chk, cases, shard=30, timeout=900, jobs=12)
     res.case_lemmas += nshards
     if bad:
@@ -329,6 +335,17 @@ def _control_variates(res, rng):
     if n_levels and (n_skip_ill > 0.25 * n_levels or n_checked < 0.4 * n_levels):
         res.broke("control-variate oracle coverage", f"{n_skip_ill} of {n_levels} levels skipped as ill-conditioned, only {n_checked} fully checked: "
                   "the multilevel control-variate path is not being exercised")
+
+
+def matches_known(v, known):
+    """F-C05-5 only explains: a genuine vector payoff, price() a single number equal to the component-0 estimator (what the
+    faithful model of MLMCStatistics.price predicts), every stored row correct"""
+    r = v["replay"]
+    if known["id"] == "F-C05-5":
+        rep, comp = r.get("reported_price") or [], r.get("per_component_estimators") or []
+        return (r.get("payoff_dim", 1) > 1 and len(rep) == 1 and len(comp) == r["payoff_dim"]
+                and abs(rep[0] - comp[0]) <= 1e-9 * max(1.0, abs(comp[0])) and "component 0 only" in v["what"])
+    return False
 
 
 def search(res):
